@@ -12,10 +12,10 @@ returns, the death watch removes the node and uncounts it).  Any interleaving of
 this granularity is an operation sequence of this machine; the harness realises the same phases on the
 real code with gates inside PreStart/PostStop.
 
-The model is of the code AS IT IS: a spawn that finds the name's node occupied by a STOPPING actor
-creates and starts a second instance, fails to insert it (duplicate id), and returns the stopping
-canonical PID (Spawn, SpawnNamedFromFunc) or the uninserted new PID (SpawnChild); the new instance keeps
-running outside the tree and outside the actor count.
+The model is of the code AS IT IS (after fix: commits 38faff1 and f0fff1d): a spawn that finds its name or id
+held by an actor that is not running fails with ErrActorAlreadyExists; the name index is a per-name stack
+(a deleted node hands a shared name back to the most recent survivor).  Still modelled as it is: a child
+spawn whose parent disappeared is counted and returned although it is not in the tree.
 -/
 namespace GoaktVerif.Model.C11
 
@@ -52,6 +52,9 @@ inductive Op where
   | kill (p : Path)
   | kBegin (p : Path)
   | kEnd (p : Path)
+  | follow (r : Req)       -- a call that joins the flight held open for its path (a FOLLOWER of the single flight)
+  | cancel (key : Path)    -- the oldest waiting follower of `key` has its context cancelled
+  | join (key : Path)      -- collect the followers of `key` after the flight ended
   | bad
   deriving Repr, DecidableEq
 
@@ -60,20 +63,24 @@ inductive Out where
   | pre | post | ok | nf | off | busy | none | badOp
   | err (msg : String)
   | group (rs : List Out)
+  | wait
+  | shared (rs : List Out)   -- results handed to followers: the leader's result (singleflight contract)
   deriving Repr
 
 structure St where
   procs : List Proc
   tree : List (Path × ProcId)          -- nodes, keyed by id (= path)
-  names : List (String × ProcId)       -- the name index of the tree (last writer wins)
+  names : List (String × ProcId)       -- the name index of the tree: per name a stack, most recent node first
   counter : Nat                        -- actorsCounter
   flights : List (Path × ProcId × Kind)  -- open spawns held in PreStart: key, the new process, kind
   stops : List (Path × ProcId)         -- open stops held in PostStop
   started : Nat
   maxLive : List (Path × Nat)          -- per path: largest number of simultaneously running instances
+  fol : List Path                      -- followers waiting behind an open flight (one entry per follower)
+  last : List (Path × Out)             -- result of the most recent held flight per path (what its followers share)
   deriving Repr
 
-def St.init : St := { procs := [], tree := [], names := [], counter := 0, flights := [], stops := [], started := 0, maxLive := [] }
+def St.init : St := { procs := [], tree := [], names := [], counter := 0, flights := [], stops := [], started := 0, maxLive := [], fol := [], last := [] }
 
 def lookup {α β : Type} [DecidableEq α] (l : List (α × β)) (k : α) : Option β :=
   match l.find? (·.1 = k) with
@@ -123,6 +130,8 @@ inductive Begin where
 def addProc (s : St) (path : Path) (kind : Kind) : St :=
   { s with procs := s.procs ++ [{ path := path, phase := .starting }], flights := (path, s.procs.length, kind) :: s.flights }
 
+def existsMsg (name : String) : String := "actor=(" ++ name ++ ") actor already exists"
+
 /-- first phase of a spawn -/
 def spawnBegin (s : St) (r : Req) : St × Begin :=
   match r.kind with
@@ -135,14 +144,18 @@ def spawnBegin (s : St) (r : Req) : St × Begin :=
         if !isRunning s pp then (s, .done (.err "actor is not alive"))
         else
           match lookup s.tree r.path with       -- findRunningChild
-          | some q => if isRunning s q then (s, .done (.pid q true)) else (addProc s r.path r.kind, .held s.procs.length)
+          | some q =>
+            if isRunning s q then (s, .done (.pid q true))
+            else (s, .done (.err (existsMsg (lastName r.path))))   -- id still held by a stopping / suspended child
           | none => (addProc s r.path r.kind, .held s.procs.length)
     | _ => (s, .done .badOp)
   | _ =>
     match r.path with
     | [name] =>
       match lookup s.names name with             -- nodeByName
-      | some q => if isRunning s q then (s, .done (.pid q true)) else (addProc s r.path r.kind, .held s.procs.length)
+      | some q =>
+        if isRunning s q then (s, .done (.pid q true))
+        else (s, .done (.err (existsMsg name)))                   -- name still held by a stopping / suspended actor
       | none => (addProc s r.path r.kind, .held s.procs.length)
     | _ => (s, .done .badOp)
 
@@ -153,7 +166,7 @@ def markRunning (s : St) (key : Path) (p : ProcId) : St :=
 /-- addNode succeeded: counted, in the tree, in the name index -/
 def attach (s : St) (key : Path) (p : ProcId) : St :=
   { s with counter := s.counter + 1, tree := (key, p) :: s.tree,
-           names := (lastName key, p) :: s.names.filter (·.1 ≠ lastName key) }
+           names := (lastName key, p) :: s.names }
 
 def parentOK (s : St) (kind : Kind) (key : Path) : Bool :=
   match kind, key with
@@ -174,6 +187,21 @@ def spawnEnd (s0 : St) (key : Path) (p : ProcId) (kind : Kind) : St × Out :=
     else
       -- addNode failed ("parent pid does not exist"): counted, published, not in the tree
       ({ s with counter := s.counter + 1 }, .pid p true)
+
+/-- what a call does BEFORE it reaches the single flight: spawnChildLocal checks its parent and looks for a running
+child; Spawn / SpawnNamedFromFunc go straight to the flight -/
+def preFlight (s : St) (r : Req) : Option Out :=
+  match r.kind, r.path with
+  | .child, [parent, _] =>
+    match lookup s.tree [parent] with
+    | none => some (.err "noparent")
+    | some pp =>
+      if !isRunning s pp then some (.err "actor is not alive")
+      else
+        match lookup s.tree r.path with
+        | some q => if isRunning s q then some (.shared [.pid q true]) else none
+        | none => none
+  | _, _ => none
 
 def fullSpawn (s : St) (r : Req) : St × Out :=
   if flightOpen s r.path then (s, .busy)
@@ -232,8 +260,27 @@ def step (s : St) : Op → St × Out
       | (s', .held _) => (s', .pre)
   | .sEnd key =>
     match s.flights.find? (·.1 = key) with
-    | some (_, p, kind) => spawnEnd s key p kind
+    | some (_, p, kind) =>
+      let r := spawnEnd s key p kind
+      ({ r.1 with last := (key, r.2) :: r.1.last.filter (·.1 ≠ key) }, r.2)
     | none => (s, .none)
+  | .follow r =>
+    if !flightOpen s r.path then (s, .none)
+    else
+      match preFlight s r with
+      | some o => (s, o)                                        -- refused or served before reaching the flight
+      | none => ({ s with fol := r.path :: s.fol }, .wait)
+  | .cancel key =>
+    if s.fol.contains key then
+      if flightOpen s key then ({ s with fol := s.fol.erase key }, .err "context canceled")
+      else ({ s with fol := s.fol.erase key }, .shared [(lookup s.last key).getD .none])   -- already served
+    else (s, .none)
+  | .join key =>
+    if flightOpen s key then (s, .busy)
+    else if s.fol.contains key then
+      let r := (lookup s.last key).getD .none
+      ({ s with fol := s.fol.filter (· ≠ key) }, .shared (List.replicate (s.fol.count key) r))
+    else (s, .none)
   | .par rs =>
     if !s.stops.isEmpty then (s, .busy)     -- harness guard: callers racing a held stop are not deterministic
     else if rs.any (fun r => rs.any fun r' => r.path.getLast? = r'.path.getLast? && r.path ≠ r'.path) then (s, .badOp)
